@@ -236,7 +236,65 @@ def run(ctx, tier):
     _unit(ctx, prim, r_canon)
     _project(ctx, prim, r_enf)
     r_acc = _accept(ctx, prim)
+    _accept_cone(ctx, prim, r_acc)
     return [r_lost, r_same, r_range, r_enf, r_canon, r_acc]
+
+
+def _accept_cone(ctx, prim, r):
+    """cone spaces: whatever enforce_bounds leaves behind has been accepted by the bounds check, or is the stored centre.
+    A projection onto the boundary (`interpolate(centre, state, max_angle / d)`) lands there only up to rounding - and up to
+    the accuracy of the interpolation - so a check without tolerance rejects about half of the projected states: the
+    projection has to be followed by the check.  Decided by reachability: with the accepting edges of
+    `satisfies_bounds(state)` removed and the stores of the centre as stops, no return may be reachable after a write to the
+    state; and nothing writes the state between an accepting edge and the return."""
+    from ..core import INTERPOLATE
+    for adt, bty in prim:
+        if bty.startswith('std::vec::Vec<') or bty == '(f64, f64)':
+            continue
+        eb = space_methods(ctx, adt).get('enforce_bounds')
+        if eb is None:
+            continue
+        fn = ctx.fn(eb)
+        name = adt.rsplit('::', 1)[1]
+        is_state = lambda ts: bool(ts) and all(q[0] == 'param' and q[1] == 2 for q in strip_clone(ts))
+        centre = lambda ts: bool(ts) and all(q[0] == 'field' and q[2] == '0' and self_field(q[1], 'bounds') for q in strip_clone(ts))
+        te, _fe, _sb = fn.bool_edges(lambda m: m[0] == 'call' and m[1] == SS + 'satisfies_bounds' and len(m[2]) == 2 and is_state(m[2][1]))
+        writes, centre_stores = [], set()
+        for bi, blk in enumerate(fn.blocks):
+            if blk['cleanup']:
+                continue
+            for si, st in enumerate(blk['stmts']):
+                if st['k'] == 'assign' and st['place']['l'] == 2 and st['place']['p'] and st['place']['p'][0] == 'deref':
+                    vals = fn.rvalue_terms(st['rv'], (bi, si))
+                    if len(st['place']['p']) == 1 and centre(vals):
+                        centre_stores.add(bi)
+                    else:
+                        writes.append((bi, si))
+            t = blk['term']
+            if t['k'] == 'call':
+                for j, a in enumerate(t['args']):
+                    pl = a.get('move') or a.get('copy')
+                    if pl is not None and not pl['p'] and eb.local_ty(pl['l']).startswith('&mut ') and j > 0:
+                        if is_state(fn.arg_terms(t, j, bi)) and t['func'].get('path') != SS + 'satisfies_bounds':
+                            writes.append((bi, fn.nstmts(bi)))
+        rets = set(fn.return_blocks())
+        probs = []
+        for (bi, si) in writes:
+            starts = fn.succs(bi) if si >= fn.nstmts(bi) else [bi]
+            reach = fn.reachable_multi(starts, removed=frozenset(te), stop=frozenset(centre_stores)) if starts else set()
+            # a write in the same block as the return, after nothing else
+            if any(x in rets and x not in centre_stores for x in reach):
+                probs.append('the state written at %s can be returned without the bounds check having accepted it (a projection onto the '
+                             'boundary lands there only up to rounding; the check has no tolerance)' % fn.loc(bi, si))
+        wblocks = {b for b, _ in writes}
+        for (a, b) in te:
+            after = fn.reachable(b)
+            if any(x in wblocks for x in after):
+                probs.append('the state is written again after the bounds check accepted it (edge bb%d -> bb%d)' % (a, b))
+        r.inst('%s: every state enforce_bounds leaves behind was accepted by the bounds check or is the stored centre (%d writes, %d accepting edges)' % (
+            name, len(writes), len(te)), ok=not probs, site=eb.loc(0))
+        for o, pr in enumerate(dict.fromkeys(probs)):
+            r.violations.append(Violation('C11', 'C11.accept', eb.path, 'cone-exit', pr, loc=eb.loc(0), ordinal=o))
 
 
 def _project(ctx, prim, r_enf):
@@ -264,13 +322,30 @@ def _project(ctx, prim, r_enf):
             if not centre(a_from) or not state(a_to):
                 probs.append('the projection interpolates from %s to %s, not from the stored centre to the state' % (fmt_terms(a_from)[:40], fmt_terms(a_to)[:40]))
                 continue
-            okt = False
-            if len(a_t) == 1:
-                n = next(iter(a_t))
-                if n[0] == 'binop' and n[1] == 'Div' and radius(n[2]) and n[3] and all(
-                        d[0] == 'call' and (d[1] == DISTANCE or d[1].endswith('::distance')) and len(d[2]) == 3 and
-                        ((centre(d[2][1]) and state(d[2][2])) or (centre(d[2][2]) and state(d[2][1]))) for d in n[3]):
-                    okt = True
+            def ratio(n):
+                return n[0] == 'binop' and n[1] == 'Div' and radius(n[2]) and bool(n[3]) and all(
+                    d[0] == 'call' and (d[1] == DISTANCE or d[1].endswith('::distance')) and len(d[2]) == 3 and
+                    ((centre(d[2][1]) and state(d[2][2])) or (centre(d[2][2]) and state(d[2][1]))) for d in n[3])
+
+            def shrinks(n, depth=0):
+                # a correction of the parameter: a product of the parameter carried round the loop, further ratios
+                # max_angle / distance(centre, state) (below 1 where the state is still outside) and constants in (0, 1]
+                if depth > 6:
+                    return False
+                if n[0] == 'rec' or ratio(n):
+                    return True
+                if n[0] == 'const':
+                    try:
+                        return 0.0 < float(n[1]) <= 1.0
+                    except (TypeError, ValueError):
+                        return False
+                if n[0] == 'binop' and n[1] == 'Mul':
+                    return all(bool(side) and all(shrinks(m, depth + 1) for m in side) for side in (n[2], n[3]))
+                if n[0] == 'binop' and n[1] == 'Sub':
+                    c1, c2 = const_float(n[2]), const_float(n[3])
+                    return c1 is not None and c2 is not None and 0.0 < c1 - c2 <= 1.0
+                return False
+            okt = bool(a_t) and any(ratio(n) for n in a_t) and all(ratio(n) or shrinks(n) for n in a_t)
             if not okt:
                 probs.append('the projection parameter is %s, not max_angle / distance(centre, state): the enforced state does not end on '
                              'the cone boundary' % fmt_terms(a_t)[:80])
